@@ -120,3 +120,44 @@ def c04_rules(m):
                     r.fail("%s|%s" % (f.qualname, A.text(n)[:40]), "%s compares input text with the literal %r without normalising its case "
                            "(`%s`): the same statement written in another case is not recognised" % (f.qualname, lits[0], A.text(n)[:60]), m.loc(f, n))
     return [r]
+
+
+def dead_pieces_rule(m, rid):
+    """C01.R4: a local that receives a piece of the input text is read afterwards."""
+    from rules import C06
+    from rules import common_block as cb
+    ctx = cb.get_ctx(m)
+    r = RuleResult(rid, "no matcher computes a piece of the input text and then drops it (every input-derived local is read)")
+    r.floor = 300
+    matches, inp = C06.input_params(m, ctx)
+    for fid, f in sorted(matches.items(), key=lambda x: x[1].qualname):
+        r.instances += 1
+        if not inp[fid]:
+            r.ob(True)
+            continue
+        d = defuse.deps(f.node)
+        derived = set(inp[fid])
+        grew = True
+        while grew:
+            grew = False
+            for name, srcs in d.items():
+                if name not in derived and srcs & derived:
+                    derived.add(name)
+                    grew = True
+        loads = {n.id for n in A.body_nodes(f.node) if isinstance(n, ast.Name) and isinstance(n.ctx, ast.Load)}
+        # names loaded inside nested functions/lambdas count as well
+        for n in ast.walk(f.node):
+            if isinstance(n, ast.Name) and isinstance(n.ctx, ast.Load):
+                loads.add(n.id)
+        dead = []
+        for n in A.body_nodes(f.node):
+            if isinstance(n, ast.Assign) and not isinstance(n.value, (ast.Compare, ast.BoolOp, ast.Constant)):
+                for t in n.targets:
+                    for nm in A.assigned_names(t):
+                        if nm in derived and nm not in loads and not nm.startswith("_") and nm not in ("dummy", "unused"):
+                            dead.append((nm, n))
+        r.ob(not dead, "%s" % f.qualname if r.instances % 60 == 1 else None)
+        for nm, node in dead[:2]:
+            r.fail("%s|dead|%s" % (f.qualname, nm), "%s assigns the input-derived value `%s` to `%s` and never reads it: that piece of the "
+                   "source text cannot reach the tree" % (f.qualname, A.text(node.value)[:40], nm), m.loc(f, node))
+    return r
